@@ -89,11 +89,13 @@ theorem function_body_from_builder (env : Env) (eng : Engine) (m : MethodEntry) 
     have hst : b.stmts = stmts := by
       split at h
       · cases h; rfl
-      · cases h
       · split at h
         · cases h; rfl
         · cases h
-        · cases h; rfl
+        · split at h
+          · cases h; rfl
+          · cases h
+          · cases h; rfl
     rw [hst]
     split at hd
     · unfold BCtx.dispatch at hd
